@@ -58,6 +58,21 @@ func (safeMapT) SafeValue()   {}
 func (safeSliceT) SafeValue() {}
 func (*safePtrT) SafeValue()  {}
 
+// c05privT: typed fields reached by reflection; a reflect.Value taken from an unexported field cannot be turned
+// into an interface, so everything that classifies "by interface" is unavailable for it - the type registry is not
+type c05privT struct {
+	Pub  regIntT
+	priv regIntT
+	name regStrT2
+	st   regStrerT
+	ds   dblSafeT
+	n    int
+	s    string
+	sv   safeIntT
+}
+
+var c05privV = reflect.ValueOf(c05privT{7, 8, "nm", regStrerT{"rs"}, 3, 42, "str", 9})
+
 var (
 	c05IntVar  = 5
 	c05PtrSafe = &safePtrT{1}
@@ -194,6 +209,13 @@ func c05MakeLeaves() []c05Leaf {
 	add(c05Leaf{Name: "Safe(SafeValue + registrable int)", Redact: redact.Safe(dblSafeT(6)), Fmt: dblSafeT(6), Safe: true, RegIdx: -1})
 	add(c05Leaf{Name: "Unsafe(SafeValue + registrable int)", Redact: redact.Unsafe(dblSafeT(6)), Fmt: dblSafeT(6), RegIdx: -1})
 	add(c05Leaf{Name: "Unsafe(registrable int)", Redact: redact.Unsafe(regIntT(5)), Fmt: regIntT(5), RegIdx: -1})
+	// reflect.Value operands taken from struct fields (exported: interfaceable; unexported: not)
+	add(c05Leaf{Name: "reflect.Value of exported field of registrable int type", Redact: c05privV.Field(0), Fmt: c05privV.Field(0), RegIdx: 0, TopOnly: true})
+	add(c05Leaf{Name: "reflect.Value of unexported field of registrable int type", Redact: c05privV.Field(1), Fmt: c05privV.Field(1), RegIdx: 0, TopOnly: true})
+	add(c05Leaf{Name: "reflect.Value of unexported field of registrable string type", Redact: c05privV.Field(2), Fmt: c05privV.Field(2), RegIdx: 1, TopOnly: true})
+	add(c05Leaf{Name: "reflect.Value of unexported field of SafeValue+registrable type", Redact: c05privV.Field(4), Fmt: c05privV.Field(4), RegIdx: 0, TopOnly: true})
+	add(c05Leaf{Name: "reflect.Value of unexported int field", Redact: c05privV.Field(5), Fmt: c05privV.Field(5), RegIdx: 3, TopOnly: true})
+	add(c05Leaf{Name: "reflect.Value of unexported string field", Redact: c05privV.Field(6), Fmt: c05privV.Field(6), RegIdx: 3, TopOnly: true})
 	// composite types registered as safe, by value and through a pointer (classification happens on the way down)
 	add(c05Leaf{Name: "registrable struct", Redact: regStructT{"prod", 7}, Fmt: regStructT{"prod", 7}, RegIdx: 2, OnlySafe: true})
 	add(c05Leaf{Name: "pointer to registrable struct", Redact: &regStructT{"prod", 7}, Fmt: &regStructT{"prod", 7}, RegIdx: 2, OnlySafe: true, TopOnly: true})
